@@ -407,9 +407,46 @@ impl GCase {
     }
 }
 
+/// a generic deriving type with a bare `#[parent]` member (seed C11-11): the Into impls build the counterpart in post-init
+/// form (`let mut obj: X = Default::default(); ..; self.p.into_existing(&mut obj)`), where the COUNTERPART's own
+/// arguments - none, or other ones than the deriving type's - have to be written
+pub fn bare_parent_modules() -> Vec<(String, Vec<String>, Vec<String>)> {
+    let mut v = vec![];
+    let d = "#[derive(Clone, Debug, PartialEq, Default)]";
+    // (declaration, argument list for the test, S-only members, their values)
+    let shapes: [(&str, &str, &str, &str); 5] = [
+        ("<'a>", "", "#[ghost] r: &'a i32", "r: &la"),
+        ("<T>", "::<i64>", "#[ghost] t: T", "t: 7i64"),
+        ("<const N: usize>", "::<2>", "#[ghost] arr: [u8; N]", "arr: [3u8; 2]"),
+        ("<'a, T: Clone>", "::<i64>", "#[ghost] r: &'a i32, #[ghost] t: T", "r: &la, t: 7i64"),
+        ("<'a, 'b, T, const N: usize>", "::<i64, 2>", "#[ghost] r: &'a i32, #[ghost] r2: &'b i32, #[ghost] t: T, #[ghost] arr: [u8; N]", "r: &la, r2: &lb, t: 7i64, arr: [3u8; 2]"),
+    ];
+    for (decl, _targs, members, vals) in shapes {
+        for cp_generic in [false, true] {
+            // the counterpart is not generic, or has one (other) type argument of its own
+            let (xd, xa, xf) = if cp_generic { ("<U>", "<u8>", ", pub u: U") } else { ("", "", "") };
+            let mut m = String::from("#![allow(unused, non_camel_case_types, clippy::all)]\nuse crate::common::*;\nuse o2o::traits::*;\n");
+            m.push_str(&format!("{d} pub struct X{xd} {{ pub x: i32, pub w: i32{xf} }}\n{d} pub struct Xf{xd} {{ pub x: i32, pub w: i32{xf} }}\n"));
+            m.push_str(&format!("{d}\n#[derive(o2o::o2o)]\n#[into_existing(X{xa})]\n#[try_into_existing(Xf{xa}, Er)]\npub struct P {{ pub w: i32 }}\n"));
+            let item = format!("#[into(X{xa})]\n#[into_existing(X{xa})]\n#[try_into(Xf{xa}, Er)]\n#[try_into_existing(Xf{xa}, Er)]\npub struct S{decl} {{ x: i32, {members}, #[parent] p: P }}\n");
+            m.push_str(&format!("#[derive(Clone)]\n#[derive(o2o::o2o)]\n{}", item));
+            let u = if cp_generic { ", u: 0" } else { "" };
+            m.push_str("pub fn run(r: &mut Rec) {\n  let la = 11; let lb = 12;\n");
+            m.push_str(&format!("  let s = S {{ x: 1, {vals}, p: P {{ w: 9 }} }};\n"));
+            m.push_str(&format!("  {{ let y: X{xa} = s.clone().into(); r.eq(\"owned_into\", &y, &X {{ x: 1, w: 9{u} }}); let y: X{xa} = (&s).into(); r.eq(\"ref_into\", &y, &X {{ x: 1, w: 9{u} }}); }}\n"));
+            m.push_str(&format!("  {{ let y: Result<Xf{xa}, Er> = s.clone().try_into(); r.eq(\"try_owned_into\", &y, &Ok(Xf {{ x: 1, w: 9{u} }})); let y: Result<Xf{xa}, Er> = (&s).try_into(); r.eq(\"try_ref_into\", &y, &Ok(Xf {{ x: 1, w: 9{u} }})); }}\n"));
+            m.push_str(&format!("  {{ let mut z = X {{ x: 900, w: 901{u} }}; s.clone().into_existing(&mut z); r.eq(\"owned_into_existing\", &z, &X {{ x: 1, w: 9{u} }}); let mut z = X {{ x: 900, w: 901{u} }}; (&s).into_existing(&mut z); r.eq(\"ref_into_existing\", &z, &X {{ x: 1, w: 9{u} }}); }}\n"));
+            m.push_str(&format!("  {{ let mut z = Xf {{ x: 900, w: 901{u} }}; let res = s.clone().try_into_existing(&mut z); r.eq(\"try_owned_into_existing\", &res.map(|_| z), &Ok::<_, Er>(Xf {{ x: 1, w: 9{u} }})); let mut z = Xf {{ x: 900, w: 901{u} }}; let res = (&s).try_into_existing(&mut z); r.eq(\"try_ref_into_existing\", &res.map(|_| z), &Ok::<_, Er>(Xf {{ x: 1, w: 9{u} }})); }}\n"));
+            m.push_str("}\n");
+            v.push((m, vec![item], vec!["mode=bare-parent".to_string(), format!("decl={}", decl), format!("counterpart-generic={}", cp_generic), "declaration-form-differs-from-argument-form".to_string()]));
+        }
+    }
+    v
+}
+
 pub fn run(tier: &str) -> i32 {
     let rep = Report::new("C11", tier, "exploration");
-    rep.set_rule("every generic parameter list of the deriving type built from {'a, 'b, T, T: Clone, T = i32, T: Clone = i32, const N: usize, const N: usize = 2} with <= 4 parameters in every order Rust allows x own `where` clause x counterpart path {mirror X<'a, T, N>, concrete arguments X<i32> on a non-generic deriving type, lifetime only on the counterpart X<'x> (README 'Lifetimes')} with and without turbofish x #[where_clause] {none, default, dedicated per counterpart} x all 12 conversion kinds (by-reference kinds whenever T can be cloned): matching type definitions are generated next to the derive, RUSTC must accept every impl, and a test body borrows stack-local (non-'static) data through every by-reference conversion and compares the results. states = distinct test modules; non-trivial = parameter lists whose declaration form differs from their argument form (bounds, defaults, const)");
+    rep.set_rule("every generic parameter list of the deriving type built from {'a, 'b, T, T: Clone, T = i32, T: Clone = i32, const N: usize, const N: usize = 2} with <= 4 parameters in every order Rust allows x own `where` clause x counterpart path {mirror X<'a, T, N>, concrete arguments X<i32> on a non-generic deriving type, lifetime only on the counterpart X<'x> (README 'Lifetimes')} with and without turbofish x #[where_clause] {none, default, dedicated per counterpart} x all 12 conversion kinds (by-reference kinds whenever T can be cloned): matching type definitions are generated next to the derive, plus `bare-parent`: generic deriving types with a bare #[parent] member (the Into impls name the counterpart - not generic, or with arguments of its own - in a let binding): RUSTC must accept every impl, and a test body borrows stack-local (non-'static) data through every by-reference conversion and compares the results. states = distinct test modules; non-trivial = parameter lists whose declaration form differs from their argument form (bounds, defaults, const)");
     rep.assume("the oracle is rustc's type checker on the real macro output; leaves are i32 / &i32 / [u8; N] / T");
     let caps = Caps::from_env(if tier == "quick" { 200.0 } else { 1200.0 });
     let items: Mutex<Vec<BItem>> = Mutex::new(vec![]);
@@ -418,6 +455,12 @@ pub fn run(tier: &str) -> i32 {
     });
     rep.add_stats("generics", "full", &st);
     eprintln!("  space generics: {} choice vectors, {} pruned", st.leaves, st.pruned);
+    let bp = bare_parent_modules();
+    let nb = bp.len() as u64;
+    for (i, (module, inputs, tags)) in bp.into_iter().enumerate() {
+        items.lock().unwrap().push(BItem { space: "bare-parent".into(), choices: vec![i as u32], tags, inputs, module, nontrivial: true });
+    }
+    rep.add_stats("bare-parent", "full (5 parameter lists x counterpart generic or not)", &crate::explore::ExploreStats { leaves: nb, transitions: nb, ..Default::default() });
     if let Err(e) = run_items("C11", items.into_inner().unwrap(), &rep, BOpts { no_std: false, features: "", name: "c11".into(), keep: std::env::var("VERIF_KEEP").is_ok() }) {
         eprintln!("MACHINERY-ERROR: {}", e);
         return 2;
@@ -428,16 +471,25 @@ pub fn run(tier: &str) -> i32 {
 pub fn replay(f: &Failure) -> i32 {
     let mut obs = vec![];
     for round in 0..2 {
-        let (c, full) = replay_one(gen, &f.choices);
-        let c = match c {
-            Some(c) if full == f.choices && c.item_text() == f.input => c,
-            _ => {
-                eprintln!("MACHINERY-ERROR: cannot re-render {:?}", f.choices);
-                return 2;
+        let item = if f.space == "bare-parent" {
+            match bare_parent_modules().into_iter().enumerate().find(|(i, _)| vec![*i as u32] == f.choices) {
+                Some((_, (module, inputs, tags))) => BItem { space: f.space.clone(), choices: f.choices.clone(), tags, inputs, module, nontrivial: true },
+                None => {
+                    eprintln!("MACHINERY-ERROR: cannot re-render {:?}", f.choices);
+                    return 2;
+                }
+            }
+        } else {
+            let (c, full) = replay_one(gen, &f.choices);
+            match c {
+                Some(c) if full == f.choices && c.item_text() == f.input => BItem { space: "generics".into(), choices: full, tags: c.tags.clone(), inputs: vec![c.item_text()], module: c.render_module(), nontrivial: true },
+                _ => {
+                    eprintln!("MACHINERY-ERROR: cannot re-render {:?}", f.choices);
+                    return 2;
+                }
             }
         };
         let rep = Report::new("C11", "quick", "exploration");
-        let item = BItem { space: "generics".into(), choices: full, tags: c.tags.clone(), inputs: vec![c.item_text()], module: c.render_module(), nontrivial: true };
         if let Err(e) = run_items("C11", vec![item], &rep, BOpts { no_std: false, features: "", name: format!("c11-replay{}", round), keep: false }) {
             eprintln!("MACHINERY-ERROR: {}", e);
             return 2;
